@@ -219,7 +219,9 @@ Fixpoint aac_multi (rate base : N) (b : bytes) (i : N) (aus : list (N * N)) : re
   end.
 
 (* continuation packets of a fragmented access unit.
-   cnt = packetCount so far, cache = bytes collected so far *)
+   cnt = packetCount so far, cache = bytes collected so far.
+   The pinned tree started the count at 0 (the first fragment was unlinked
+   but not subtracted from list.Size); the current tree starts at 1. *)
 Fixpoint aac_frag (rate total ts0 prev_seq : N) (l : list upkt) (acc : list bytes) (cache : N) (cnt : Z)
   : res (option unpacked) :=
   match l with
@@ -260,7 +262,7 @@ Definition try_unpack_aac (rate : N) (l : list upkt) : res (option unpacked) :=
             if size <=? lenN avail then
               let* ts := out_ts site_aac_divide rate (u_ts p) in
               Ok (Some ([(ts, firstn (N.to_nat size) avail)], u_seq p, rest, 1%Z))
-            else aac_frag rate size (u_ts p) (u_seq p) rest [avail] (lenN avail) 0%Z
+            else aac_frag rate size (u_ts p) (u_seq p) rest [avail] (lenN avail) 1%Z
       | _ =>
           let* outs :=
              match aus with
